@@ -1156,32 +1156,68 @@ def plumbing(ctx):
     ob(['C11', 'C02', 'C19'], 'TypeRegistry::get', okg, 'registry lookup is by the full path given', f)
     f = one('type_registry::TypeRegistry::resolve_grammar_type')
     okg = False
+    detg = ''
     if f:
+        # every value the function can return, in Option normal form (`x.map(|t| C(t))` and `Some(C(x?))` read the same); a value
+        # merged from the arms of a match is taken apart into its definitions
+        rows = []
+        for x in f.exits():
+            if x['kind'] == 'none_prop':
+                continue
+            vals = [expand(f, x['expr'])]
+            for _round in range(2):
+                nxt = []
+                for v in vals:
+                    mv = [y for y in walk(v) if isinstance(y, tuple) and y and y[0] == 'var' and isinstance(y[1], int) and
+                          2 <= len(f.defs().get(y[1], [])) <= 8 and not (1 <= y[1] <= f.nargs)]
+                    if mv:
+                        y = mv[0]
+                        for d in f.defs()[y[1]]:
+                            de = expand(f, f.expr_of_def(d))
+                            nxt.append(map_tree(v, lambda z, y=y, de=de: de if z == y else z))
+                    else:
+                        nxt.append(v)
+                vals = nxt
+            rows += [opt_norm(f, v) for v in vals]
+        arg_t = [i_ for i_ in range(1, f.nargs + 1) if f.local_ty(i_) == '&grammar::Type']
+        tv = ('arg', arg_t[0]) if arg_t else None
+
+        def pl(e, variant, idx=0):
+            e = strip(e)
+            return e[0] == 'payload' and e[2] == variant and (e[3] if len(e) > 3 else 0) == idx and tv is not None and strip(e[1])[:2] == tv
+
+        def rec_of(b, variant):
+            # Box::new(try(resolve_grammar_type(self, scope, <payload 0 of the same variant>)))
+            b = strip(b)
+            if not (is_call(b, 'Box::<T>::new') or is_call(b, 'Box::new')) or len(b[2]) != 1:
+                return False
+            t = strip(untry(b[2][0]))
+            if t[0] != 'try':
+                return False
+            r = strip(t[1])
+            return r[0] == 'call' and r[1] == f.id and len(r[2]) == 3 and strip(r[2][0])[0] == 'arg' and strip(r[2][1])[0] == 'arg' and pl(r[2][2], variant)
+        seen = {}
+        for r in rows:
+            kind = None
+            if r[0] == 'some':
+                v = strip(r[1])
+                if v[0] == 'agg' and v[1].endswith('Type::ConstPointer') and len(v[2]) == 1 and rec_of(v[2][0][1], 'ConstPointer'):
+                    kind = 'ConstPointer'
+                elif v[0] == 'agg' and v[1].endswith('Type::MutPointer') and len(v[2]) == 1 and rec_of(v[2][0][1], 'MutPointer'):
+                    kind = 'MutPointer'
+                elif v[0] == 'agg' and v[1].endswith('Type::Array') and len(v[2]) == 2 and rec_of(dict(v[2])['0'], 'Array') and pl(dict(v[2])['1'], 'Array', 1):
+                    kind = 'Array'
+                elif is_call(v, 'TypeRegistry::padding_type') and len(v[2]) == 2 and pl(v[2][1], 'Unknown'):
+                    kind = 'Unknown'
+            elif r[0] == 'opt':
+                v = strip(r[1])
+                if is_call(v, 'TypeRegistry::resolve_string') and len(v[2]) == 3 and strip(v[2][1])[0] == 'arg' and any(pl(y, 'Ident') for y in walk(v[2][2]) if isinstance(y, tuple)) and \
+                        not any(isinstance(y, tuple) and y and y[0] in ('bin', 'un') for y in walk(v[2][2])):
+                    kind = 'Ident'
+            seen.setdefault(kind, []).append(r)
         sw = [s_ for s_ in f.switches() if s_['cond'][0] == 'discr' and strip(s_['cond'][1])[0] == 'arg']
-        if len(sw) == 1:
-            arms = {}
-            for lab, tgt in sw[0]['edges']:
-                arms[lab] = [x['expr'] for x in f.exits() if f.dominates(tgt, x['block'])]
-            def wraps(lab, ctor):
-                v = arms.get(lab, [])
-                if len(v) != 1 or not is_call(v[0], 'Option::<T>::map'):
-                    return False
-                rec, cl = v[0][2][0], v[0][2][1]
-                if not (is_call(rec, 'resolve_grammar_type') and cl[0] == 'closure' and cl[1] in P.fns):
-                    return False
-                ce = single_exit(P.fns[cl[1]])
-                return ce is not None and ce[0] == 'agg' and ce[1].endswith('Type::' + ctor)
-            okg = wraps('ConstPointer', 'ConstPointer') and wraps('MutPointer', 'MutPointer') and wraps('Array', 'Array')
-            v = arms.get('Unknown', [])
-            okg = okg and len(v) == 1 and bool(find_calls(v[0], 'padding_type'))
-            v = arms.get('Ident', [])
-            okg = okg and len(v) == 1 and is_call(v[0], 'resolve_string')
-            # array length handed on unchanged
-            v = arms.get('Array', [])
-            if okg and v:
-                cl = v[0][2][1]
-                ce = single_exit(P.fns[cl[1]])
-                n_ = dict(ce[2]).get('1')
-                okg = strip(n_)[0] in ('upvar', 'field', 'payload', 'arg') and not any(isinstance(y, tuple) and y[0] == 'bin' for y in walk(n_))
+        okg = len(sw) == 1 and set(seen) == {'ConstPointer', 'MutPointer', 'Array', 'Unknown', 'Ident'} and all(len(v_) == 1 for v_ in seen.values())
+        detg = '; '.join('%s: %s' % (k_, show(v_[0][-1])[:50] if v_ and len(v_[0]) > 1 else v_) for k_, v_ in sorted(seen.items(), key=lambda kv: str(kv[0])) if k_ is None)
     ob(['C01', 'C02', 'C11', 'C18', 'C15', 'C05'], 'resolve_grammar_type', okg,
-       'grammar types map structurally: *const→ConstPointer, *mut→MutPointer, [T; n]→Array(T, n) with n unchanged, unknown<n>→padding, names→resolve_string', f)
+       'grammar types map structurally: *const→ConstPointer, *mut→MutPointer, [T; n]→Array(T, n) with n unchanged, unknown<n>→padding, names→resolve_string%s' % (
+           (' (not understood: %s)' % detg) if detg else ''), f)
